@@ -588,6 +588,8 @@ class Run:
             m = self.engine.models.native_attr(self, v, name)
             if m is not None:
                 return m
+            if not hasattr(type(obj), name) and not hasattr(obj, name):
+                self.throw(AttributeError, f"'{type(obj).__name__}' object has no attribute '{name}'")
             raise Unsupported(f"attribute {name} of native {type(obj).__name__}")
         # instances
         cls = v.cls
@@ -1443,7 +1445,9 @@ class Run:
         hit = self.find_attr(cls_of(obj), "__getitem__")
         if hit is None:
             if isinstance(obj, VNative) and isinstance(obj.obj, type):
-                return obj   # generic alias like List[int]
+                if hasattr(obj.obj, "__class_getitem__"):
+                    return obj   # generic alias like List[int]
+                self.throw(TypeError, f"type '{obj.obj.__name__}' is not subscriptable")
             self.throw(TypeError, f"'{cls_of(obj).__name__}' object is not subscriptable")
         return self.call(self.bind_raw(hit[0], "__getitem__", hit[1], obj, cls_of(obj)), [idx])
 
